@@ -133,6 +133,7 @@ func (h *Headers) Deserialize(frh *FrameHeader) error {
 
 	h.endStream = flags.Has(FlagEndStream)
 	h.endHeaders = flags.Has(FlagEndHeaders)
+	h.hasPadding = flags.Has(FlagPadded)
 	h.rawHeaders = append(h.rawHeaders, payload...)
 
 	return nil
